@@ -24,10 +24,13 @@ rc, out = sh('git apply --check %s' % diff, cwd=wt)
 if rc != 0:
     print('patch does not apply to current HEAD:', out); sys.exit(2)
 shutil.copy(demo, os.path.join(wt, 'zz_seed_demo_test.go'))
-rc0, out0 = sh('go test -vet=off -count=1 -run "Seed|Demo" . 2>&1 | tail -5', cwd=wt)
+import re
+tests = re.findall(r'^func (Test\w+)\(', open(demo).read(), re.M)
+RUN = '^(' + '|'.join(tests) + ')$' 
+rc0, out0 = sh('go test -vet=off -count=1 -run "%s" . 2>&1 | tail -5' % RUN, cwd=wt)
 meta['confirmed']['demo_passes_without_change'] = ('ok' in out0 and 'FAIL' not in out0)
 sh('git apply %s' % diff, cwd=wt)
-rc1, out1 = sh('go test -vet=off -count=1 -run "Seed|Demo" . 2>&1 | tail -15', cwd=wt)
+rc1, out1 = sh('go test -vet=off -count=1 -run "%s" . 2>&1 | tail -15' % RUN, cwd=wt)
 meta['confirmed']['demo_fails_with_change'] = 'FAIL' in out1
 os.remove(os.path.join(wt, 'zz_seed_demo_test.go'))
 rc2, out2 = sh('go build ./... && go test -vet=off -count=1 ./... 2>&1 | grep -E "^(--- FAIL|FAIL|ok)"', cwd=wt)
